@@ -976,7 +976,7 @@ def self_range_cases() -> List[dict]:
     return out
 
 
-NESTED_BODIES = ('table', 'point', 'func', 'seq', 'named-map')
+NESTED_BODIES = ('table', 'func', 'seq', 'named-map')
 NESTED_INNER = {'rename': [['v', 'x1'], ['d', 'x2']], 'sum': [['v', 'x1 + x2'], ['d', 'x2']], 'identity': None}
 NESTED_OUTER = {'chain': [['x1', 'x2'], ['x2', 'c']], 'rchain': [['x2', 'x1'], ['x1', 'c']],
                 'swap': [['x1', 'x2'], ['x2', 'x1']], 'expr': [['x1', 'x2 + c'], ['x2', 'c']],
@@ -990,7 +990,7 @@ def _eval_simple(expr: str, env: Dict[str, F]) -> F:
 def nested_map_cases() -> List[dict]:
     """two DIRECTLY nested mappings, composed by the user: an anonymous, constraint free inner mapping (the constructor
     merges it into the outer one) below an outer mapping that is a rename chain (both orders), a swap, a chain with
-    expressions or plain; the node below (5 kinds) carries the constraint `2*v + d REL K` with K below / on / above
+    expressions or plain; the node below (4 kinds) carries the constraint `2*v + d REL K` with K below / on / above
     the value the SIMULTANEOUS composition gives (computed here layer by layer, judged by Lean on the composed tree).
     Assignments: exactly the names the implementation declares; plus values for the inner names; minus one name."""
     out = []
@@ -1096,7 +1096,7 @@ def run(ctx: core.Ctx):
                                  'below / on / above the boundary, plus iterations whose range names the '
                                  'loop\'s own index (5 range shapes x 7 parents), plus directly nested mappings composed by '
                                  'the user (anonymous constraint free inner mapping: rename / sum / identity; outer mapping: '
-                                 'rename chain in both orders / swap / chain with expressions / plain; 5 node kinds below '
+                                 'rename chain in both orders / swap / chain with expressions / plain; 4 node kinds below '
                                  'carrying a constraint below / on / above the boundary in 3 relations; exactly the declared '
                                  'names, extra inner names, one name missing): %d cases' % len(ex))
     recs = [r for r in _pool_map(ctx, evaluate_case, ex) if r is not None]
